@@ -150,7 +150,10 @@ class Db:
         obs = {"n": len(store_abs), "q": [], "live": [], "fresh": []}
         try:
             idx = self.db.index
-            if not idx.valid or any(p["t"] == UNKNOWN for p in store_abs):
+            if not idx.valid:
+                return obs
+            if any(p["t"] == UNKNOWN for p in store_abs):
+                obs["n"] = -1        # the index claims to mirror contents that cannot even be decoded in the database's own format
                 return obs
             from tinyflux.index import Index
             fresh = Index()
@@ -371,12 +374,33 @@ class Db:
             return 0
         if entry == "insert_meas":
             return db.insert(tf.Point(time=good_t, measurement=good_m), measurement=bad)
+        if entry == "insert_meas_pos":
+            return db.insert(tf.Point(time=good_t, measurement=good_m), bad)
+        if entry == "handle_insert":
+            return db.measurement(bad).insert(tf.Point(time=good_t))
+        if entry == "handle_insert_multiple":
+            return db.measurement(bad).insert_multiple([tf.Point(time=good_t), tf.Point(time=good_t)])
         if entry == "insert_meas_stored":
             # a Point object handed out by the database (MemoryStorage: the stored object itself) inserted again
             got = db.get(tf.TimeQuery().noop())
             return db.insert(got if got is not None else tf.Point(time=good_t, measurement=good_m), measurement=bad)
         q = th.query(tf, a["q"], self.cache)
         static = entry.endswith("_static")
+        if static and slot in ("tagvalue", "fieldvalue"):
+            # first a VALID update that selects nothing and whose argument compares equal to the wrong one (True == 1; the same
+            # text as a tag value): whatever the database remembers about validated arguments must not vouch for this one
+            twin = None
+            if slot == "fieldvalue" and isinstance(bad, bool):
+                twin = {"fields": {fk: int(bad)}}
+            elif slot == "fieldvalue" and isinstance(bad, str):
+                twin = {"tags": {fk: bad}}
+            elif slot == "tagvalue" and isinstance(bad, (int, float)):
+                twin = {"fields": {tk: bad}} if not isinstance(bad, bool) else {"fields": {tk: int(bad)}}
+            if twin is not None:
+                try:
+                    db.update(tf.TimeQuery() < th.val("time", 0), **twin)
+                except Exception:
+                    pass
         kw = {name: value} if static else {name: (lambda old, v=value: v)}
         if entry == "update_callable_inplace":
             def inplace(old, v=value):
